@@ -28,10 +28,21 @@ def run(ctx):
 
 
 def public_functions(mod):
+    """the public functions of a platform module, plus the private module-level functions they call (a public
+    parser that only packs its options and delegates is analysed through the function that does the work)"""
     out = []
-    for st in mod.tree.body:
-        if isinstance(st, ast.FunctionDef) and re.match(r"(parse_|extract_|is_|has_|convert_|normalize_)", st.name):
-            out.append(st)
+    seen = set()
+    defs = {st.name: st for st in mod.tree.body if isinstance(st, ast.FunctionDef)}
+    work = [st for st in mod.tree.body if isinstance(st, ast.FunctionDef) and re.match(r"(parse_|extract_|is_|has_|convert_|normalize_)", st.name)]
+    while work:
+        st = work.pop(0)
+        if st.name in seen:
+            continue
+        seen.add(st.name)
+        out.append(st)
+        for c in ast.walk(st):
+            if isinstance(c, ast.Call) and isinstance(c.func, ast.Name) and c.func.id in defs and c.func.id.startswith("_") and c.func.id not in seen:
+                work.append(defs[c.func.id])
     return out
 
 
@@ -221,7 +232,8 @@ def templates(ctx, rule):
     repo = ctx.repo
     # facebook: route words in url templates vs substrings tested by the parser
     mod = repo.mod("facebook")
-    parser = unparse(mod.func("parse_facebook_url").node)
+    from .common_url import body_function
+    parser = unparse(body_function(repo, mod.func("parse_facebook_url")).node)
     words = set()
     for cls in ("FacebookUser", "FacebookHandle", "FacebookGroup", "FacebookPost", "FacebookVideo", "FacebookPhoto"):
         c = mod.klass(cls)
@@ -247,7 +259,7 @@ def templates(ctx, rule):
                "%s.url uses the route '%s' which parse_facebook_url never dispatches on: the canonical url does not re-parse to the record" % (cls, w), mod.site(mod.klass(cls)))
     # youtube templates
     ym = repo.mod("youtube")
-    yparser = unparse(ym.func("parse_youtube_url").node)
+    yparser = unparse(body_function(repo, ym.func("parse_youtube_url")).node)
     for name, route in (("YOUTUBE_VIDEO_URL_TEMPLATE", "/watch"), ("YOUTUBE_USER_URL_TEMPLATE", "/user/"), ("YOUTUBE_CHANNEL_ID_URL_TEMPLATE", "/channel/"), ("YOUTUBE_SHORT_URL_TEMPLATE", "/shorts/")):
         t = repo.const(ym, name)
         ctx.table("ural.youtube." + name)
